@@ -53,7 +53,8 @@ def run(ctx):
                 for t in (a - 1, a, a + 1, b - 1, b, b + 1, a - 86400, b + 86400):
                     times.add(t)
             for i, t in enumerate(sorted(times)):
-                ents.append({"path": "f%03d" % i, "kind": "f", "size": 1, "mode": 0o644, "mtime": t - off})
+                ents.append({"path": "f%03d" % i, "kind": "f", "size": 1, "mode": 0o644, "mtime": t - off,
+                             "mtime_ns": [0, 500000000, 999999999, 1][i % 4]})
             snap = corr.Snap(scratch, ents, subdir="t%d" % rd, tz=tz)
             # the printed column
             q = "select name, modified from . into list"
@@ -97,7 +98,7 @@ def run(ctx):
             day0 = (now + off) // 86400 * 86400 - off    # local midnight today, in UTC seconds
             ents = []
             for k, delta in enumerate([-3 * 86400 - 1, -2 * 86400, -86400 - 1, -86400, -1, 0, 3600, 86399, 86400, 2 * 86400 + 5, 3 * 86400]):
-                ents.append({"path": "r%02d" % k, "kind": "f", "size": 1, "mode": 0o644, "mtime": day0 + delta})
+                ents.append({"path": "r%02d" % k, "kind": "f", "size": 1, "mode": 0o644, "mtime": day0 + delta, "mtime_ns": [0, 750000000][k % 2]})
             snap = corr.Snap(scratch, ents, subdir="rel_" + tz.replace("<", "").replace(">", "").replace(":", ""), tz=tz)
             for lit, dd in [("today", 0), ("yesterday", -1), ("+1", 1), ("-2", -2), ("+2", 2), ("-1", -1)]:
                 for op in ["=", "!=", "<", ">=", ">"]:
